@@ -475,6 +475,7 @@ func runScenario(w *World, rng *Rng, s *Scenario, maxSteps int) *runResult {
 		e.settle()
 	}
 	wdDone := false
+	retried, postRetryCancel := false, false
 	steps := 0
 	closed := false
 	cancelDone := false
@@ -516,6 +517,31 @@ func runScenario(w *World, rng *Rng, s *Scenario, maxSteps int) *runResult {
 				return "ok"
 			})
 			e.settle()
+		}
+		if s.cancelAt >= 0 && retried && !postRetryCancel && len(e.aliveTaskIns()) > 0 && !e.anyIns(hasCmd) && rng.Chance(1, 3) {
+			// cancel a task that runs again after a retry command (its action may ignore the cancellation)
+			postRetryCancel = true
+			ids := []string{e.aliveTaskIns()[0]}
+			beat()
+			e.spawn(6, "cancel-after-retry", func() string {
+				if err := mod.GetCommander().CancelTask(ids); err != nil {
+					return "err"
+				}
+				return "ok"
+			})
+			e.settle()
+			e.drive(6)
+			if e.anyIns(hasCmd) {
+				par := e.par
+				e.spawn(2, "watchCmd", func() string {
+					if err := par.VerifWatchCmd(); err != nil {
+						return "err"
+					}
+					return "ok"
+				})
+				e.settle()
+				e.drive(2)
+			}
 		}
 		inRetryHook := false
 		if s.cancelAt >= 0 && !cancelDone {
@@ -658,6 +684,7 @@ func runScenario(w *World, rng *Rng, s *Scenario, maxSteps int) *runResult {
 			})
 		case s.retries > 0 && len(e.tasksWithStatus("failed", "canceled")) > 0 && !e.anyIns(func(d bsonD) bool { return docStr(d, "status") == "running" }):
 			s.retries--
+			retried = true
 			ids := e.tasksWithStatus("failed", "canceled")
 			if s.badCmds && rng.Chance(1, 2) {
 				ids = append(ids, e.tasksWithStatus("success")...)
